@@ -13,7 +13,7 @@ EXPLANATION = (
     "parser, AIR, encoder, loader and the other handlers never evaluate it, so a program without the four mnemonics and "
     "without opcode 0xD behaves identically under both settings. R5 (TAB/EFF): flag parsing ('stack', empty words, unknown "
     "and repeated words) and single initialisation."
-    ' R3 also requires the flag test itself (not only the block behind it) to dominate every state write of the 0xD handler. R5 accepts Cell- or RefCell-based single initialisation and requires the empty feature word to be skipped (filter / continue), not to end the list.'
+    ' R3 also requires the flag test itself (not only the block behind it) to dominate every state write of the 0xD handler. R5 accepts Cell- or RefCell-based single initialisation and requires the empty feature word to be skipped (filter / continue), not to end the list. R6 (DOM/CG): every construction of a plain Label token in the lexer sits in the keyword routine, behind a call of it, or in a helper only called from such places - no identifier path goes round the gate.'
 )
 NOT_DECIDED = "nothing of substance (the uninitialised-flag case of check/watch is C07.R2)"
 
@@ -167,6 +167,52 @@ def run(ctx):
     ctx.oblig(ok, {"flag off": "process::exit(%s), no return" % code}, "diverges with status 1")
     if not ok:
         ctx.violation("gate-exit", sp_file_line(tt.get("sp")), "with the flag off opcode 0xD does not stop the VM with exit status 1 (exit code %s, can return: %s)" % (code, bool(returns)))
+    ctx.finish_rule()
+
+    # every identifier goes through the gate: a function of the lexer that makes a plain `Label` token does so only after the keyword routine
+    # has seen the identifier (in the routine itself, behind a call of it, or in a helper that is only called from such places) - an early
+    # `return Ok(Label)` in front of the lookup lets `push:` through with the flag off
+    ctx.rule("C18.R6", "a Label token is only made once the keyword routine has looked at the identifier", floor=2)
+    lexmod = "lace::lexer::"
+    def makes_label(f):
+        out = []
+        for b, i, s_ in f.assigns():
+            r_ = s_["r"]
+            if r_["k"] == "agg" and r_.get("variant") == "Label" and str(r_.get("adt", "")).endswith("lexer::TokenKind"):
+                out.append((b, s_))
+        return out
+    gated_memo = {}
+    def gated(fname, bb, depth=0):
+        """is block bb of fname only reached after a call of the keyword routine?"""
+        if fname == LEX:
+            return True
+        f = prog.fns[fname]
+        if any(c == LEX and f.dominates(cb, bb) and cb != bb for cb, t_, c in f.calls()):
+            return True
+        if depth >= 4:
+            return False
+        key = fname
+        if key in gated_memo:
+            return gated_memo[key]
+        gated_memo[key] = False
+        sites = [(cn, cb) for cn in ctx.cg.callers(fname) if cn in prog.fns for cb, t_, c in prog.fns[cn].calls() if c == fname]
+        r_ = bool(sites) and all(gated(cn, cb, depth + 1) for cn, cb in sites)
+        gated_memo[key] = r_
+        return r_
+    nlabel = 0
+    for n, f in sorted(prog.fns.items()):
+        if not n.startswith(lexmod) or "::tests::" in n or "::test" in n.rsplit("::", 1)[-1] or f.bkind == "promoted" or "::promoted[" in n:
+            continue                                  # a promoted `&TokenKind::Label` is the constant a comparison reads, not a token that is handed out
+        for b, s_ in makes_label(f):
+            nlabel += 1
+            ctx.instance(1)
+            ok = gated(n, b)
+            ctx.oblig(ok, {"Label token made in": short(n), "at": sp_file_line(s_.get("sp"))}, "behind the keyword routine")
+            if not ok:
+                ctx.violation("label-before-gate|%s" % short(n), sp_file_line(s_.get("sp")),
+                              "`%s` makes a Label token without the keyword routine (%s) having looked at the identifier: a stack mnemonic taking this "
+                              "path is accepted as a label with the flag off" % (short(n), short(LEX)))
+    ctx.need(nlabel >= 2, "constructions of TokenKind::Label in the lexer (found %d)" % nlabel)
     ctx.finish_rule()
 
     ctx.rule("C18.R4", "closed set of readers of the flag", floor=5)
